@@ -125,3 +125,18 @@ func init() {
 		QuickRuns: 600, QuickSecs: 70, ThoroughRuns: 30000, ThoroughSecs: 700,
 		RequiredProbes: []string{"oracle.accepted", "oracle.rejected", "oracle.honest-update-applied", "oracle.prices-changed"}})
 }
+
+func init() {
+	comp := map[string]string{}
+	for k, v := range l2Components {
+		comp[k] = v
+	}
+	comp["opchild/ante MempoolFeeChecker + RedundantBridgeDecorator inside the real SDK DeductFeeDecorator chain"] = "real"
+	comp["opchild/lanes match handlers"] = "real (called on decoded transactions with a committed-state context)"
+	comp["mempool"] = "stub: per-node list; admission and re-admission through the real CheckTx (New / Recheck)"
+	core.Register(&core.Scenario{ID: "C20", Level: "exploration", Run: runC20, Components: comp,
+		Assumptions: []string{"2-3 L2 nodes share one genesis and execute the same blocks; each has its own node-local min-gas-prices", "fee grants are not wired (granter only matters to the free-lane matcher)", "the degenerate gas = 0 corner is left unconstrained"},
+		Rule: "transaction life-cycle on 2-3 L2 nodes with different node-local min gas prices while the chain's MinGasPrices / FeeWhitelist change through admin messages: random gas limits, fee coin sets built just below / at / above ceil(gas x max(node, chain)) per denom plus unpriced denoms, relay transactions made of stale / fresh / mixed / ahead / unauthorised deposit finalisations, CheckTx(New), ReCheckTx of every mempool after every block, simulate, and direct proposal of unchecked transactions; lane match handlers on 12 message-list shapes x payer / granter / whitelist combinations; oracle: fee arithmetic in exact rationals, shape and whitelist predicates, a sequential model of the check-state deposit counter; non-trivial = >=1 rejection below the floor and >=1 admission at the floor",
+		QuickRuns: 600, QuickSecs: 70, ThoroughRuns: 30000, ThoroughSecs: 700,
+		RequiredProbes: []string{"fee.rejected-below-floor", "fee.admitted-at-floor", "redundancy.stale-only-rejected", "redundancy.fresh-admitted", "redundancy.simulate-not-filtered", "lane.checked", "lane.free-matched", "deliver.unchecked-txs-proposed"}})
+}
